@@ -216,9 +216,14 @@ func vfC11(w *vfWorld) {
 			for i, h := range snapshots {
 				hdr := h
 				for _, host := range hosts {
-					r := b.Do(pickRep(), &vfReq{Method: "GET", Host: host, Target: "/app/replay", NoJar: true, CookieHdr: &hdr})
-					if len(r.UpHits) > 0 {
-						w.violate("C11", "replay-after-signout-served", cs.Store, "pre-sign-out cookie set #%d replayed to %s after a successful sign-out was authenticated as %q", i, host, r.UpHits[0].Get("X-S-Email"))
+					tgt := []string{"/app/replay", "/app/replay", pp + "/auth", pp + "/userinfo"}[t.Choice("c11.replay-endpoint", 4)]
+					r := b.Do(pickRep(), &vfReq{Method: "GET", Host: host, Target: tgt, NoJar: true, CookieHdr: &hdr})
+					if len(r.UpHits) > 0 || (tgt == pp+"/auth" && r.Status == 202) || (tgt == pp+"/userinfo" && r.Status == 200) {
+						who := ""
+						if len(r.UpHits) > 0 {
+							who = r.UpHits[0].Get("X-S-Email")
+						}
+						w.violate("C11", "replay-after-signout-served", cs.Store, "pre-sign-out cookie set #%d replayed to %s%s after a successful sign-out was authenticated (status %d) as %q", i, host, tgt, r.Status, who)
 					}
 				}
 			}
